@@ -16,6 +16,7 @@ SPEC = {
     ],
     "assumptions": [
         "block protocol: disburseFeesVQ (BeginBlock) and disburseFeesP (EndBlock) alternate, one each per block (the model returns RMisuse otherwise); between them the persisted last-block-fees value is stale in the code and is not counted",
+        "huge genesis (one history in seven plus a random 10 %): total supply between 2^64 and 2^70 (sqrt voting power) or near 2^128 (stake bypassed); validator general balances, several accounts, one validator escrow pool, a non-validator active and debonding pool and the delegations into them sit just below / at / above 2^64, so that transfers, fee credits, rewards, commission deposits, escrow deposits and debonding releases move balances, pool balances and share totals across 2^64 in both directions (measured per run in the histograms crossed_2^64_upwards / crossed_2^64_downwards / became_exact_multiple_of_2^64); the correspondence therefore exercises values above 2^64 (the model is over unbounded N)",
         "governance campaigns (most insecure-beacon histories): staking ChangeParameters proposals (fee split weights incl. vote+next = 0, reward factors, reward schedule, minimum amounts, MinTransactBalance, MaxAllowances, debonding interval) submitted by an account and voted through by all validator entities, with a fee-paying transfer in every block; each block's model operations use the parameters read from the real state before that block",
         "histories: insecure beacon (epoch every 4 blocks) or mock beacon with set-epoch transactions jumping 1..4 epochs, debonding intervals 1..4, optional genesis debonding delegations that are already expired; 6 % of the blocks are proposed by a node the registry does not know (no proposer entity)",
         "a BeginBlock/EndBlock error aborts the block (multiplexer panics): modelled as RFatal with the state unchanged",
